@@ -45,11 +45,11 @@ _POOL, _DIR = {}, [None]  # per process: files already written, and where
 
 def input_path(fmt, j, seq):
     """File of input j with the given score sequence; written once per worker process."""
-    key = (fmt, j, tuple(seq))
+    key = (fmt, j, tuple(seq), M.FINE)
     if key not in _POOL:
         if _DIR[0] is None:
             _DIR[0] = worker_scratch().sub("pool")
-        p = _DIR[0] / f"in{j}_{''.join(map(str, seq))}.{fmt}"
+        p = _DIR[0] / f"in{j}_{''.join(map(str, seq))}{'_fine' if M.FINE else ''}.{fmt}"
         rows = M.rows_of([()] * j + [seq])[j]
         if fmt == "parquet":
             tbl = pa.table({c: pa.array([r[k] for r in rows], PA[k]) for k, c in enumerate(M.COLS)})
@@ -68,6 +68,7 @@ def rows_from(x):
 
 def observe(case):
     """Run one access path; -> (rows delivered so far, exception or None)."""
+    M.FINE = bool(case.get("fine"))
     import mokapot.utils as mu
     from mokapot.streaming import MergedTabularDataReader, merge_readers
     from mokapot.tabular_data import TableType, TabularDataReader
@@ -110,6 +111,7 @@ def signature(impl):
 
 def check_case(case, acc):
     """-> (outcome class, rows)."""
+    M.FINE = bool(case.get("fine"))
     inputs, desc = [tuple(s) for s in case["inputs"]], case["desc"]
     out, exc = observe(case)
     sig = signature(case["impl"])
@@ -157,6 +159,14 @@ def explore(inputs, desc, negative, acc):
             case = {"impl": impl, "fmt": fmt, "desc": desc, "inputs": [list(s) for s in inputs], "chunk": c,
                     "out_chunk": oc, "negative": negative}
             cls, out = check_case(case, acc)
+            if impl != "merge_sort" and n_rows_of(inputs) <= 3 and (c <= 2):
+                # the same family with score levels only 3e-5 apart (an inversion is then tiny but real)
+                case_f = dict(case, fine=True)
+                cls_f, out_f = check_case(case_f, acc)
+                acc.case(key=(impl, fmt, desc, inputs, c, oc, negative, "fine"), nontrivial=True, cls=cls_f,
+                         outcome=stable_hash([cls_f, [r[0] for r in out_f]]))
+                acc.count("fine_score_levels")
+                M.FINE = False
             if impl == "merge_sort" and c == 2 and n_rows_of(inputs) <= 4:
                 # history: the same merge right after another merge was abandoned after 1 / 2 rows
                 for k in (1, 2):
